@@ -120,7 +120,8 @@ def run_case(i):
                 names.append("nanos6-breakdown")
             out["bd"] = True
         tracegen.write_trace(wd, case["desc"], case["hist"], require=histgen.require_of(case["enabled"]),
-                             extra_meta=extra or None, cpus_on="all" if i % 2 else "first")
+                             extra_meta=extra or None, cpus_on=["first", "all", "shuffled", "split"][i % 4],
+                             cpu_rng=chk.rng(i, "cpus"))
         r = emu.emu(build, wd, args, timeout=60)
         if r.timeout:
             out["inconclusive"] = "timeout"; return out
@@ -160,7 +161,7 @@ def main(argv):
     c0 = gen_case(chk, cases[0])
     cov = {"evaluations": n, "distinct_nontrivial": len(sets),
            "rule": "accepted traces from the C06 history generator (all eight models, marks with labels, tasks, ranks, 1-5 "
-                   "looms with scrambled names, loom_cpus on one or on every thread) plus -b breakdown runs; every "
+                   "looms with scrambled names, loom_cpus on one thread, on every thread, in shuffled order or split over the threads of the loom) plus -b breakdown runs; every "
                    ".prv/.pcf/.row parsed independently and checked: non-decreasing times, rows in range, header duration "
                    "= last event time, every type declared, state-type values labelled, .row count and documented order. "
                    "distinct_nontrivial = distinct (model set, breakdown on/off) combinations",
